@@ -85,4 +85,15 @@ CLAIMED.update({
         "label-correct array, or is left open; TLC checks Prop_C12 and emits every reachable table; each is imported through from_df, "
         "set_values_from_df on a pre-filled target (must stay untouched on refusal) and the CSV reader.",
    technique="TLA+ fault-sequence state machine over abstract tables (TLC, MC_Tables) replayed into from_df / set_values_from_df / CSVParameterReader with all flag settings"),
+ "C19": dict(engine="export", ref="6/C19",
+   text="Export.tla states what convert_to_dict and the CSV exports contain for a system (every flow and stock with exactly its values under its labels, "
+        "structure, one file per flow and per exported stock quantity); TLC enumerates systems and emits the expected contents; the numpy, pandas, "
+        "pickle and CSV exports of the real system are compared, pandas / CSV forms are read back with from_df, the system is snapshotted around the "
+        "export, and MFADefinition.to_dfs is compared with the definitions.",
+   technique="TLA+ export contract enumerated by TLC (MC_Export, part export); every vector replayed through all export functions and re-imported"),
+ "C20": dict(engine="export", ref="6/C20",
+   text="SankeyLinks / SankeyNodes and Lines are TLA+ operators over the system / array; TLC enumerates slice dictionaries, exclusion lists, split "
+        "settings and every assignment of 1-3 dimensions to plot roles and checks the exclusion and split-total laws; figure.data of the plotly "
+        "Sankey, plotly traces (attributed to the titled subplot they sit in) and matplotlib lines are extracted and compared.",
+   technique="TLA+ plot-content operators enumerated and checked by TLC (MC_Export, parts sankey / lines); figures of the real plotters extracted and compared"),
 })
